@@ -138,6 +138,8 @@ const (
 	FaultNestedGrp  = "nested_error_group"          // ggql.Errors{e, ggql.Errors{e, e}}: three entries
 	FaultShared     = "shared_ggql_error"           // every failing site of the plan returns the SAME *ggql.Error value (an application sentinel)
 	FaultTwinGroup  = "error_group_with_equal_texts" // ggql.Errors of three members, two of them with the same text and different extensions
+	FaultWrapGroup  = "wrapped_error_group"         // fmt.Errorf("ctx: %w", group)-style wrapper around a ggql.Errors of two members
+	FaultWrapGGQL   = "wrapped_ggql_error"          // wrapper around a *ggql.Error with extensions
 	FaultPanic      = "panic"                       // the resolver panics (the caller of ggql recovers): histories only
 	FaultBadList    = "bad_list_elements"           // a [scalar] field returns []interface{}{ok, bad, ok, bad}: two coercion failures in one list
 )
@@ -185,6 +187,15 @@ type Tracker struct {
 	Calls     []Call
 	Fired     []Fired
 }
+
+// wrapErr wraps an error the way fmt.Errorf("...: %w", err) does.
+type wrapErr struct {
+	msg string
+	err error
+}
+
+func (w *wrapErr) Error() string { return w.msg + ": " + w.err.Error() }
+func (w *wrapErr) Unwrap() error { return w.err }
 
 // ErrInjectedResolve is the base of injected resolver errors.
 var ErrInjectedResolve = errors.New("injected resolver failure")
@@ -270,6 +281,11 @@ func (tr *Tracker) enter(typ, field string, args map[string]interface{}, path st
 			&ggql.Error{Base: errors.New("injected twin " + tag), Extensions: map[string]interface{}{"code": "E" + strconv.Itoa(tr.N) + "t2"}},
 			errors.New("injected member 3 " + tag),
 		}
+	case FaultWrapGroup:
+		f.Members = 2
+		return kind, &wrapErr{msg: "while resolving " + field, err: ggql.Errors{errors.New("injected member 1 " + tag), errors.New("injected member 2 " + tag)}}
+	case FaultWrapGGQL:
+		return kind, &wrapErr{msg: "while resolving " + field + " " + tag, err: &ggql.Error{Base: errors.New("injected ggql failure " + tag), Extensions: map[string]interface{}{"code": "E" + strconv.Itoa(tr.N)}}}
 	case FaultBadList:
 		f.Members = 2
 	}
